@@ -27,7 +27,7 @@ the markup parser (`get_parser_by_name(docformat, obj)(doc, errs)`), `to_stan`, 
 the `SummaryExtractor` walk, `build_table_of_content`, the `ParsedTypeDocstring` constructor.
 An outcome is "returns a value" or "raises `e`" — exceptions are explicit (`Exc`), and every
 place where the Python has no handler propagates (`Res.raises`).  The model follows /repo after
-the fixes 4690c0c (reportErrors keyed by phase), c422501 (format_toc guards get_toc), 4caea46 (colorized_pyval_fallback guards to_node),
+the fixes c070c47 (a broken summary is remembered on the object rendered), 4690c0c (reportErrors keyed by phase), c422501 (format_toc guards get_toc), 4caea46 (colorized_pyval_fallback guards to_node),
 e1378c4 (search text guards to_node) and a0ab2a9 (epytext to_node keeps no half-built
 document, so `to_node` is a function of the parsed docstring, as the model assumes); the pre-fix
 `format_toc` survives as `formatTocOld`.  Errors a parser appended to the
@@ -501,7 +501,19 @@ def getParsedSummary (env : Env) (st : St) (obj : Obj) : Res (Option Obj × PD) 
         | .raises e => (.raises e, r.2)
         | .ok s => (.ok (some src, s), setSummary r.2 obj s)
 
+/-- since c070c47 the fallback marks the summary of `obj` — the object being rendered — as broken
+(`lambda errs, doc, _: format_summary_fallback(errs, doc, obj)`); `report=False` -/
 def formatSummary (env : Env) (st : St) (obj : Obj) : Res Stan × St :=
+  match getParsedSummary env st obj with
+  | (.raises e, st') => (.raises e, st')
+  | (.ok (_, pd), st') =>
+    match pdToStan env pd with
+    | .returns s => (.ok s, st')
+    | .raises _ => (.ok .broken, setSummary st' obj (.stanOnly .broken))
+
+/-- HISTORICAL (before c070c47): `format_summary_fallback` received `ctx` = the docstring SOURCE and stored
+the broken summary there.  Used only by `summary_fallback_touches_source` / `…_overwrites_class_summary`. -/
+def formatSummaryOld (env : Env) (st : St) (obj : Obj) : Res Stan × St :=
   match getParsedSummary env st obj with
   | (.raises e, st') => (.raises e, st')
   | (.ok (source, pd), st') =>
